@@ -257,6 +257,7 @@ static rc::Gen<Case> genCase(int tier)
         int n = *range<int>(1, tier ? 12 : 8);
         HistoryGenParams hp;
         hp.maxFrames = 6;
+        hp.bigSegmentHistories = 6;  // accumulations beyond what a 16-bit length can describe
         for (int i = 0; i < n; ++i)
         {
             int what = *rc::gen::weightedElement<int>({{5, 0}, {2, 1}, {1, 2}});
